@@ -113,7 +113,7 @@ open C05
     `c05 op <kind> <T> <d> <k> <full streams> <delivered chunks per phase> <kind parameters…>`
     → `<dom> <spec> <model> <model return time> <deadline in force>`.
     kinds: `si depth exact strip ret cmd` · `gp depth ret` · `ia depth ret n (input resp|- hidden)*`
-    · `au depth ret user pass` · `he depth` · `rp version` · `cb ret input n (trigger complete send)*`
+    · `au depth ret user pass` · `he depth` · `rp version` · `rq version source perOp` · `cb ret input n (trigger complete send)*`
     · `nw depth ret strip escalate cmd fuel Tcmd` -/
 def handleC05 : List String → String
   | ["gt", ops, t] =>
@@ -166,6 +166,16 @@ def handleC05 : List String → String
       | "rp", [ver] =>
         let re := if ver == "11" then Gen.Rx.Netconf.v1Dot1Delim else Gen.Rx.Netconf.v1Dot0Delim
         showAns (answer .rpc d (rpcP [] (fun rb => Rx.isMatch re rb) T) fulls deliv k)
+      | "rq", [ver, src, perOp] =>
+        -- a NETCONF operation of any kind: `T` is the connection-wide timeout (ms); `src` says how
+        -- the call site builds its options (`n` = NewOperation, `l` = struct literal without
+        -- Timeout), `perOp` the per-operation timeout passed by the caller (`-` = none)
+        let re := if ver == "11" then Gen.Rx.Netconf.v1Dot1Delim else Gen.Rx.Netconf.v1Dot0Delim
+        let source : OptSource :=
+          if src == "l" then .literal 0 else .newOperation (if perOp == "-" then none else perOp.toInt?)
+        let prog := rpcOpP [] (fun rb => Rx.isMatch re rb) (T : Nat) ((Gen.Util.MaxTimeout : Nat) * 1000)
+          Gen.Netconf.defaultTimeout source
+        showAns (answer .rpc d prog fulls deliv k)
       | "cb", ret :: input :: n :: rest =>
         match fromHex ret, fromHex input, n.toNat? with
         | some ret, some input, some n =>
